@@ -81,41 +81,47 @@ Definition P_extract_integer (b : bytes) (ptr : Z) : Z * Z :=
 Definition schar (c : Z) : Z := if c <? 128 then c else c - 256.
 (* tolower_fast(char), estring.h 701-703 *)
 Definition lower1 (c : Z) : Z := if (65 <=? c) && (c <=? 90) then c + 32 else c.
-(* tolower_fast8 on one byte lane, estring.cpp 173-185: check_cases(x,'A','X') *)
-Definition lower8 (c : Z) : Z := if (65 <=? c) && (c <=? 88) then c + 32 else c.
-Fixpoint be_num (s : bytes) (acc : Z) : Z :=
-  match s with [] => acc | x :: t => be_num t (acc * 256 + lower8 x) end.
-(* icmp8 + spaceship: sign of the result (0 when equal) *)
-Definition icmp8_sign (a b : bytes) : Z :=
-  let x := wrap (be_num a 0 - be_num b 0) in
-  if x =? 0 then 0 else if x <? 9223372036854775808 then 1 else -1.
-Definition size_sign (la lb : Z) : Z :=
-  if la =? lb then 0 else if la <? lb then -1 else 1.
-Fixpoint icmp_small (a b : bytes) (la lb : Z) : Z :=
-  match a, b with
-  | x :: a', y :: b' =>
-    let d := schar (lower1 x) - schar (lower1 y) in
-    if d =? 0 then icmp_small a' b' la lb else if d <? 0 then -1 else 1
-  | _, _ => size_sign la lb
-  end.
-Fixpoint icmp_blocks (n : nat) (a b : bytes) : Z :=
-  match n with
-  | O => 0
-  | S k => let r := icmp8_sign (firstn 8 a) (firstn 8 b) in
-           if r =? 0 then icmp_blocks k (skipn 8 a) (skipn 8 b) else r
-  end.
-(* stricmp_fast 228-246: sign only *)
-Definition icmp (a b : bytes) : Z :=
-  let la := zlen a in let lb := zlen b in
-  let len := Z.min la lb in
-  if len <? 8 then icmp_small (ztake len a) (ztake len b) la lb
-  else
-    let r := icmp_blocks (Z.to_nat (len / 8)) a b in
-    if negb (r =? 0) then r
+(* tolower_fast8 on one byte lane, estring.cpp 173-185: check_cases(x,'A','Z')
+   (after fix F28; before it the upper bound was 'X' = 88, see lower8_prefix) *)
+Definition lower8 (c : Z) : Z := if (65 <=? c) && (c <=? 90) then c + 32 else c.
+Definition lower8_prefix (c : Z) : Z := if (65 <=? c) && (c <=? 88) then c + 32 else c.
+Section Icmp.
+  Variable low8 : Z -> Z.
+  Fixpoint be_num (s : bytes) (acc : Z) : Z :=
+    match s with [] => acc | x :: t => be_num t (acc * 256 + low8 x) end.
+  (* icmp8 + spaceship: sign of the result (0 when equal) *)
+  Definition icmp8_sign (a b : bytes) : Z :=
+    let x := wrap (be_num a 0 - be_num b 0) in
+    if x =? 0 then 0 else if x <? 9223372036854775808 then 1 else -1.
+  Definition size_sign (la lb : Z) : Z :=
+    if la =? lb then 0 else if la <? lb then -1 else 1.
+  Fixpoint icmp_small (a b : bytes) (la lb : Z) : Z :=
+    match a, b with
+    | x :: a', y :: b' =>
+      let d := schar (lower1 x) - schar (lower1 y) in
+      if d =? 0 then icmp_small a' b' la lb else if d <? 0 then -1 else 1
+    | _, _ => size_sign la lb
+    end.
+  Fixpoint icmp_blocks (n : nat) (a b : bytes) : Z :=
+    match n with
+    | O => 0
+    | S k => let r := icmp8_sign (firstn 8 a) (firstn 8 b) in
+             if r =? 0 then icmp_blocks k (skipn 8 a) (skipn 8 b) else r
+    end.
+  (* stricmp_fast 228-246: sign only *)
+  Definition icmp_with (a b : bytes) : Z :=
+    let la := zlen a in let lb := zlen b in
+    let len := Z.min la lb in
+    if len <? 8 then icmp_small (ztake len a) (ztake len b) la lb
     else
-      let r2 := if len / 8 * 8 <? len
-                then icmp8_sign (slice a (len - 8) 8) (slice b (len - 8) 8) else 0 in
-      if negb (r2 =? 0) then r2 else size_sign la lb.
+      let r := icmp_blocks (Z.to_nat (len / 8)) a b in
+      if negb (r =? 0) then r
+      else
+        let r2 := if len / 8 * 8 <? len
+                  then icmp8_sign (slice a (len - 8) 8) (slice b (len - 8) 8) else 0 in
+        if negb (r2 =? 0) then r2 else size_sign la lb.
+End Icmp.
+Definition icmp := icmp_with lower8.
 
 (* ------------------------------------------------------------- Headers ---- *)
 (* KV = pair<rstring_view16, rstring_view16> : (key off, key len, value off, value len) *)
@@ -184,11 +190,29 @@ Definition insertion_sort (less : kv -> kv -> bool) (l : list kv) : list kv :=
 
 Definition B_colon := 58. Definition B_sp := 32. Definition B_cr := 13. Definition B_lf := 10.
 
-(* HeadersBase::parse 173-185 (+ kv_add 164-171).  `next_byte` is the value of the
-   byte just after the parsed region (m_buf[m_buf_size]) or None when that
-   address is outside the caller's buffer.  Result: None = out of range / fuel;
-   Some None = "add kv failed" (-1); Some (Some kvs) = index before sorting. *)
-Fixpoint parse_loop (fuel : nat) (hb : bytes) (hcap : Z) (next_byte : option Z)
+(* HeadersBase::parse 173-185 (+ kv_add 164-171), after fix F27
+   `while (!p.is_done() && p[0] != '\r')`.  Result: None = fuel; Some None = "add kv failed"
+   (-1); Some (Some kvs) = index before sorting. *)
+Fixpoint parse_loop (fuel : nat) (hb : bytes) (hcap : Z) (ptr : Z) (kvs : list kv)
+  : option (option (list kv)) :=
+  match fuel with
+  | O => None
+  | S f =>
+    if zlen hb <=? ptr then Some (Some kvs) else                 (* p.is_done() *)
+    if nth (Z.to_nat ptr) hb 0 =? B_cr then Some (Some kvs) else
+    let '(k, p1) := P_extract_until hb ptr B_colon in
+    let p2 := P_skip_chars hb p1 B_sp true in
+    let '(v, p3) := P_extract_until hb p2 B_cr in
+    let p4 := P_skip_chars hb p3 B_lf false in
+    (* kv_add *)
+    if hcap - 8 * (zlen kvs + 1) <=? zlen hb then Some None
+    else parse_loop f hb hcap p4 ((fst k, snd k, fst v, snd v) :: kvs)
+  end.
+
+(* the loop as it was before fix F27: `while (p[0] != '\r')` reads the byte BEHIND the
+   parsed region when the parser is at its end; `next_byte` is that byte (None = outside
+   the caller's buffer).  Kept for the theorem header_parse_stale_byte_prefix_refuted. *)
+Fixpoint parse_loop_prefix (fuel : nat) (hb : bytes) (hcap : Z) (next_byte : option Z)
          (ptr : Z) (kvs : list kv) : option (option (list kv)) :=
   match fuel with
   | O => None
@@ -202,18 +226,17 @@ Fixpoint parse_loop (fuel : nat) (hb : bytes) (hcap : Z) (next_byte : option Z)
       let p2 := P_skip_chars hb p1 B_sp true in
       let '(v, p3) := P_extract_until hb p2 B_cr in
       let p4 := P_skip_chars hb p3 B_lf false in
-      (* kv_add *)
       if hcap - 8 * (zlen kvs + 1) <=? zlen hb then Some None
-      else parse_loop f hb hcap next_byte p4 ((fst k, snd k, fst v, snd v) :: kvs)
+      else parse_loop_prefix f hb hcap next_byte p4 ((fst k, snd k, fst v, snd v) :: kvs)
     end
   end.
 
 Definition h_less (hb : bytes) (a b : kv) : bool := icmp (kv_key hb a) (kv_key hb b) <? 0.
 
 (* reset(buf, cap, size) + parse + sort, headers.h 70-79 *)
-Definition h_reset_parse (hb : bytes) (hcap : Z) (next_byte : option Z) : option (option hdrs) :=
+Definition h_reset_parse (hb : bytes) (hcap : Z) : option (option hdrs) :=
   if zlen hb =? 0 then Some (Some (mkH hb hcap [])) else
-  match parse_loop (S (Z.to_nat (hcap / 8 + 1))) hb hcap next_byte 0 [] with
+  match parse_loop (S (Z.to_nat (hcap / 8 + 1))) hb hcap 0 [] with
   | None => None
   | Some None => Some None
   | Some (Some kvs) =>
@@ -325,8 +348,7 @@ Definition append_bytes (m : msg) (bs : bytes) : option (Z * msg) :=
     if r <? 0 then Some (r, m2) else
     let hb := zdrop cur rx in
     let hcap := u16 (m_cap m - cur) in
-    let next_byte := if zlen rx <? m_cap m then Some (m_fill m) else None in
-    match h_reset_parse hb hcap next_byte with
+    match h_reset_parse hb hcap with
     | None => None
     | Some None => Some (-1, m2)
     | Some (Some h) =>
